@@ -1,6 +1,7 @@
 package engine
 
 import (
+	"encoding/json"
 	"fmt"
 	"go/ast"
 	"go/token"
@@ -42,7 +43,8 @@ type World struct {
 	SpecErrs            []string
 	specFnDeclared      map[string]bool
 	ContractFiles       []string
-	mayEffect           map[*ssa.Function]int // memo: 1 = no, 2 = yes, 3 = in progress
+	mayEffect           map[*ssa.Function]int        // memo: 1 = no, 2 = yes, 3 = in progress
+	Renames             map[string]map[string]string // top-level function key -> (name used in the contracts -> current name)
 }
 
 func shortPath(p string) string {
@@ -460,4 +462,138 @@ func (w *World) MayEffect(f *ssa.Function) bool {
 		w.mayEffect[f] = 1
 	}
 	return res
+}
+
+// LocalsOf lists, for every top-level function of the repository, the variables it declares (parameters, results,
+// locals, also those of nested function literals) in source order, each with its type.
+func (w *World) LocalsOf() map[string][][2]string {
+	out := map[string][][2]string{}
+	for _, p := range w.Pkgs {
+		if p.Types == nil || !strings.HasPrefix(p.Types.Path(), RepoModule) {
+			continue
+		}
+		q := func(o *types.Package) string { return o.Name() }
+		for _, f := range p.Syntax {
+			for _, d := range f.Decls {
+				fd, ok := d.(*ast.FuncDecl)
+				if !ok {
+					continue
+				}
+				fo, ok := p.TypesInfo.Defs[fd.Name].(*types.Func)
+				if !ok {
+					continue
+				}
+				sf := w.Prog.FuncValue(fo)
+				if sf == nil {
+					continue
+				}
+				key := FuncKey(sf)
+				var list [][2]string
+				ast.Inspect(fd, func(n ast.Node) bool {
+					id, ok := n.(*ast.Ident)
+					if !ok || id.Name == "_" {
+						return true
+					}
+					if v, ok := p.TypesInfo.Defs[id].(*types.Var); ok && !v.IsField() {
+						list = append(list, [2]string{id.Name, types.TypeString(v.Type(), q)})
+					}
+					return true
+				})
+				out[key] = list
+			}
+		}
+	}
+	return out
+}
+
+// LoadLocalsLock reads the variable lists recorded by `govc lock` and derives, per function, the pure renames since
+// then: a name the contracts may use that no longer exists, whose same-typed, same-position successor is a name that
+// did not exist before (and the function still declares as many variables of that type). Contract identifiers that
+// do not resolve are looked up through this map, so that renaming a local variable or a parameter alone does not
+// break a proof.
+func (w *World) LoadLocalsLock(path string) {
+	data, err := os.ReadFile(path)
+	if err != nil {
+		return
+	}
+	locked := map[string][][2]string{}
+	if json.Unmarshal(data, &locked) != nil {
+		return
+	}
+	cur := w.LocalsOf()
+	w.Renames = map[string]map[string]string{}
+	for key, l := range locked {
+		c, ok := cur[key]
+		if !ok {
+			continue
+		}
+		curNames, lockedNames := map[string]bool{}, map[string]bool{}
+		byTypeL, byTypeC := map[string][]string{}, map[string][]string{}
+		for _, e := range l {
+			lockedNames[e[0]] = true
+			byTypeL[e[1]] = append(byTypeL[e[1]], e[0])
+		}
+		for _, e := range c {
+			curNames[e[0]] = true
+			byTypeC[e[1]] = append(byTypeC[e[1]], e[0])
+		}
+		ren := map[string]string{}
+		for t, ln := range byTypeL {
+			cn := byTypeC[t]
+			if len(cn) != len(ln) {
+				continue
+			}
+			for k := range ln {
+				if ln[k] != cn[k] && !curNames[ln[k]] && !lockedNames[cn[k]] {
+					if prev, dup := ren[ln[k]]; dup && prev != cn[k] {
+						ren[ln[k]] = "" // ambiguous
+						continue
+					}
+					ren[ln[k]] = cn[k]
+				}
+			}
+		}
+		for o, n := range ren {
+			if n == "" {
+				delete(ren, o)
+			}
+		}
+		if len(ren) > 0 {
+			w.Renames[key] = ren
+		}
+	}
+}
+
+// renamed answers the current name of a contract identifier of the (top-level function of the) given function.
+func (w *World) renamed(f *ssa.Function, name string) string {
+	if w.Renames == nil || f == nil {
+		return ""
+	}
+	if o := f.Origin(); o != nil {
+		f = o
+	}
+	for f.Parent() != nil {
+		f = f.Parent()
+	}
+	return w.Renames[FuncKey(f)][name]
+}
+
+// lockedName answers the name a (possibly renamed) variable had when the contracts were locked; obligation names are
+// built from it so that a pure rename does not rename obligations.
+func (w *World) lockedName(f *ssa.Function, cur string) string {
+	if w.Renames == nil || f == nil {
+		return cur
+	}
+	if o := f.Origin(); o != nil {
+		f = o
+	}
+	for f.Parent() != nil {
+		f = f.Parent()
+	}
+	for old, nn := range w.Renames[FuncKey(f)] {
+		if nn == cur {
+			return old
+		}
+	}
+	return cur
 }
